@@ -169,15 +169,16 @@ variable {F : Type}
 
 /-- **YAML genome round trip (modules included).** For every genome satisfying `WFyaml` the tree the YAML writer
     builds is taken apart by the YAML reader into the same genome.  `WFyaml` asks of a module what the reader
-    rebuilds unconditionally: control node hidden, every module link weight `1.0`, not recurrent, no trait. -/
+    rebuilds unconditionally (control node hidden, every module link weight `1.0`, not recurrent, no trait) and
+    of every float that the YAML layer gives it back unchanged (`yf x = x`: every float64 but negative zero). -/
 theorem decGenome_encGenome [DecidableEq F] (C : Codec F) (hA : ActsRoundTrip C) (K : Consts F) (g : Genome F)
     (h : WFyaml C K g = true) : decGenome C K (encGenome C g) = .ok g := by
-  simp only [WFyaml, Bool.and_eq_true, decide_eq_true_eq, List.all_eq_true, beq_iff_eq, bne_iff_ne, ne_eq] at h
-  obtain ⟨⟨⟨⟨⟨htr, hndT⟩, hndN⟩, hnodes⟩, hgenes⟩, hmods⟩ := h
-  have ht := decTraits_enc K g.traits [] (fun t ht => (htr t ht).1) (by simpa using hndT)
+  simp only [WFyaml, yamlStable, Bool.and_eq_true, decide_eq_true_eq, List.all_eq_true, beq_iff_eq, bne_iff_ne, ne_eq] at h
+  obtain ⟨⟨⟨⟨⟨⟨⟨⟨hsT, hsG⟩, hsM⟩, htr⟩, hndT⟩, hndN⟩, hnodes⟩, hgenes⟩, hmods⟩ := h
+  have ht := decTraits_enc K g.traits [] (fun t ht => (htr t ht).1) hsT (by simpa using hndT)
   have hn := decNodes_enc C hA g.traits g.nodes [] hnodes (by simpa using hndN)
-  have hg := decGenes_enc g.traits g.nodes g.genes hgenes
-  have hm := decModules_enc C hA K g.traits g.nodes g.modules hmods
+  have hg := decGenes_enc K g.traits g.nodes g.genes hgenes hsG
+  have hm := decModules_enc C hA K g.traits g.nodes g.modules hmods hsM
   simp only [List.nil_append] at ht hn
   cases g with
   | mk id traits nodes genes modules =>
@@ -226,7 +227,7 @@ theorem decModel_encModel (C : Codec F) (hA : ActsRoundTrip C) (m : FastModel F)
   obtain ⟨⟨hs, hacts⟩, hmods⟩ := h
   have ha := decActs_enc C hA m.acts hacts
   have hl := decLinks_enc m.conns
-  have hb := Codec.decFloats_map m.biasList
+  have hb := Codec.decFloats_map (fun x => x) m.biasList (fun _ _ => rfl)
   have hm := decMods_enc C hA m.modules hmods
   cases m with
   | mk id name nInput nSensor nOutput nBias nTotal acts biasList conns modules =>
@@ -439,11 +440,10 @@ theorem plain_formats_aligned :
       c.verbs.all fun v => ["%d", "%g", "%t", "%s", "genomestart", "genomeend"].contains v) = true ∧
     plainWriter = plainWriterShape ∧ plainReader = plainReaderShape := by decide
 
-/-- how `ReadPopulation` starts the per-genome buffer: either as shipped (no newline behind `genomestart <id>`:
-    the known finding) or with the proposed repair; nothing else -/
+/-- `ReadPopulation` starts the per-genome buffer with the complete LINE `genomestart <id>` (newline included:
+    the repair of the defect that `readPopulation_legacy_counterexample` exhibits), finishes it with
+    `genomeend <id>` and appends every other line with `Fprintln` - the shape `PlainIO.popStep` implements -/
 theorem population_reader_shape :
-    populationReader.map (fun c => (c.kind, c.format)) =
-      [("SplitN", "\" \"/2"), ("Sprintf", "genomestart %s"), ("Fprintf", "genomeend %d"), ("Fprintln", "")] ∨
     populationReader.map (fun c => (c.kind, c.format)) =
       [("SplitN", "\" \"/2"), ("Sprintf", "genomestart %s\n"), ("Fprintf", "genomeend %d"), ("Fprintln", "")] := by decide
 
@@ -477,7 +477,7 @@ def exGenome : Genome Nat :=
 
 example : WFio natCodec exGenome = true := by decide
 example : WFpop natCodec exGenome = true := by decide
-example : WFyaml natCodec ⟨0, 1⟩ exGenome = true := by decide
+example : WFyaml natCodec { zero := 0, one := 1 } exGenome = true := by decide
 example : parse natCodec (render natCodec exGenome) = .ok exGenome :=
   parse_render natCodec natCodec_floats (registry_acts_roundtrip _ _) exGenome (by decide)
 
@@ -491,7 +491,7 @@ def exModule : Module Nat :=
 /-- a modular genome as the YAML reader builds it (module link weights `1`) -/
 def exModular : Genome Nat := { exGenome with modules := [exModule] }
 
-example : WFyaml natCodec ⟨0, 1⟩ exModular = true := by decide
+example : WFyaml natCodec { zero := 0, one := 1 } exModular = true := by decide
 
 def exExperiment : Codec.Experiment Nat :=
   { id := 1, name := "xor", trials := [{ id := 0, gens := [
